@@ -6,7 +6,7 @@ from pyvc.types import parse as T
 NODE = "obj:Node"                       # Node, ExactNode, PSNode
 ANYNODE = "obj:ArrivalNode|Node|ExitNode"
 SERVICE_OR_EXIT = "obj:Node|ExitNode"
-SERVTIME = "date || str"                # False | number | 'resume' / 'restart' / 'resample' / 'reroute'
+SERVTIME = "date || str || bool"    # a validated sample may be a bool (isinstance(True, int))                # False | number | 'resume' / 'restart' / 'resample' / 'reroute'
 
 
 def F(spec, cls, **fields):
@@ -50,6 +50,8 @@ def declare(spec):
     K["PrioMap"] = (T("str"), T("int"))
     K["CClasses"] = (T("str"), T("obj:CustomerClass"))
     K["CCTD"] = (T("str"), T("opt:obj:Distribution"))
+    K["ServDistByNode"] = (T("int"), T("dict:ServDistByClass"))       # Simulation.service_times: never None (I-CFG)
+    K["ServDistByClass"] = (T("str"), T("obj:Distribution"))
     K["DistByNode"] = (T("int"), T("dict:DistByClass"))
     K["DistByClass"] = (T("str"), T("opt:obj:Distribution"))
     K["CountByClass"] = (T("str"), T("int"))
@@ -63,7 +65,7 @@ def declare(spec):
       current_time="time", network="obj:Network", NodeTypes="list:NodeTypes", ArrivalNodeType="fn",
       ExitNodeType="fn", IndividualType="fnconst:Individual", ServerType="fnconst:Server", name="str",
       deadlock_detector="obj:NoDetection", inter_arrival_times="dict:DistByNode",
-      service_times="dict:DistByNode", batch_sizes="dict:DistByNode", number_of_priority_classes="int",
+      service_times="dict:ServDistByNode", batch_sizes="dict:DistByNode", number_of_priority_classes="int",
       transitive_nodes="list:TNodes", nodes="list:Nodes", active_nodes="list:ActiveNodes",
       routers="dict:Routers", statetracker="obj:StateTracker", times_dictionary="dict:Times",
       times_to_deadlock="dict:Times", unchecked_blockage="bool", progress_bar="val", all_records="val")
@@ -145,6 +147,12 @@ def declare(spec):
 
     F(spec, "Distribution", simulation="val")
     F(spec, "StateDigraph", statedigraph="val")
+
+    # I-CFG (assumed, listed in every evidence file that relies on it): configuration dictionaries are total over
+    # the classes / nodes they are indexed with, per-node configuration lists have one entry per node
+    spec.total_dicts |= {"Baulk", "ClassChange", "ClassChangeRow", "PrioMap", "CClasses", "CCTD", "DistByNode", "DistByClass", "ServDistByNode", "ServDistByClass",
+                         "CountByClass", "EvDates", "EvDatesRow", "Routers", "ClassOrdering"}
+    spec.per_node_lists |= {"DistList", "FnList", "Centres", "TNodes", "NodeRouters"}
 
     # attributes created by an initialise() step that Simulation.__init__ / Node.__init__ always runs
     # (not by the class's own __init__); their presence afterwards is assumed (I-DEF), and listed
